@@ -53,7 +53,7 @@ REGISTRY = {
                  "distinct_key": lambda case, res: res,
                  "what": "crash images of TTL-on workloads that include generations expired on arrival (explicit 1970 timestamps) and never-expiring ones of the same keys: real reopen with TTL on vs Model.Recovery (newest generation chosen first, then dropped if expired, older generations never exposed), plus the window oracle (an expired newest generation means the key is absent)"}],
         "nontrivial_rule": "as C01; expiries are generated at least one hour before or after the wall clock so visibility is decidable; TTL-on configurations carry the expiry clauses",
-        "assumptions": ["the 1 ns boundary of the real clock is not decidable by this check (the model fixes > vs >=; comparisons inside the observation window are reported undecided)", "sweeper interleavings and crash points inside recovery are not part of this check (C04/C07 machinery)"],
+        "assumptions": ["the 1 ns boundary of the real clock is not decidable by this check (the model fixes > vs >=; comparisons inside the observation window are reported undecided)", "with the sweeper running, 150 ms either side of an expiry instant are not judged", "sweeper interleavings and crash points inside recovery are not part of this check (C04/C07 machinery)"],
     },
     "C12": {
         "title": "automatic versions strictly increase per key",
@@ -302,6 +302,16 @@ def _f1(seedoff):
 
 
 REGISTRY["C04"]["teq"].append(_f1(4))
+# the concurrent clauses of C14: stable keys complete, dead keys absent, indexes agree at quiescence
+REGISTRY["C14"]["teq"].append({"engine": "scan", "quick": {"n": 8, "ms": 300, "seedoff": 14}, "thorough": {"n": 80, "ms": 800, "seedoff": 14},
+                                "oracle": True, "mismatch_is_failure": False, "timeout": 3400,
+                                "nontrivial": lambda case, res: "pairs=0" not in case, "distinct_key": lambda case, res: case,
+                                "what": "four scanners run range_query at full speed against four writers that replace, delete, re-create, TTL-rewrite and compare-and-swap 2-6 keys (memory-only and persistent, 40 B - 20 KiB values); 4-12 keys that nobody touches sort between and around the churned ones, as do keys deleted before the scans began. Oracle: every scan is strictly ascending, holds every untouched key exactly once, never a key deleted beforehand, every value is one written to its key; at quiescence the ordered index, the hashed index (H4) and a full range query hold the same keys"})
+# C11 with the background sweeper running
+REGISTRY["C11"]["teq"].append({"engine": "sweep", "quick": {"n": 16, "seedoff": 11}, "thorough": {"n": 64, "seedoff": 11},
+                                "oracle": True, "mismatch_is_failure": False, "timeout": 3400,
+                                "nontrivial": lambda case, res: "reads=0" not in case, "distinct_key": lambda case, res: case,
+                                "what": "stores with the TTL sweeper running every 10-80 ms (memory-only and persistent, cache on/off): 6-30 keys without TTL, with 1 s and with 3600 s TTLs, some made permanent (persist) or re-timed (update_ttl 1 s / 3600 s) before anything expires; a reader polls for 2.4 s; every answer is judged against the wall clock read before and after the call, with 150 ms either side of the expiry instant left unjudged: visible with the right value before, not found after; then a range scan, and for persistent stores flush, reopen and the same judgement"})
 # refused writes (memory limit; memory-only and persistent): next to records still in the write-behind buffer (C01, C13),
 # and with explicit timestamps that a failing call must not leave in the clock (C12)
 REGISTRY["C01"]["teq"].append(seq({"only": "limited", "n": 10, "ops": 80, "seedoff": 101}, {"only": "limited", "seedoff": 101}))
